@@ -45,4 +45,34 @@ VERUS = [{
         },
     ],
 }]
-KANI = []
+ENC = ["gix_packetline::encode::data_to_write", "gix_packetline::encode::text_to_write", "gix_packetline::encode::error_to_write",
+       "gix_packetline::encode::band_to_write", "gix_packetline::encode::flush_to_write", "gix_packetline::encode::delim_to_write",
+       "gix_packetline::encode::response_end_to_write", "gix_packetline::encode::prefixed_and_suffixed_data_to_write", "gix_packetline::encode::u16_to_hex",
+       "gix_packetline::decode::streaming", "gix_packetline::PacketLineRef::decode_band", "gix_packetline::PacketLineRef::as_text", "gix_packetline::PacketLineRef::check_error"]
+
+def H(name, props, kind, bound, tier="quick", timeout=900, mem_gb=12, functions=None):
+    return {"name": name, "props": props, "tier": tier, "kind": kind, "bound": bound, "timeout": timeout, "mem_gb": mem_gb, "functions": functions or ENC}
+
+NAMES = ["data", "text", "error", "band1", "band2", "band3"]
+def rt(n, tier):
+    return [H("roundtrip_%s_%d" % (nm, n), ["C29"], "bounded", "%s encoder -> streaming decoder, every payload of %d byte(s), any 2 trailing bytes" % (nm, n), tier=tier) for nm in NAMES] \
+        + [H("truncated_%d" % n, ["C29"], "bounded", "every strict prefix of an encoded %d-byte data line is Incomplete with the exact missing count" % n, tier=tier)]
+
+KANI = [{
+    "mode": "external",
+    "harnesses": [
+        H("hex_prefix_all", ["C29", "C06"], "full", "all 2^32 four-byte prefixes (loop-free apart from the 2-byte hex decode)", functions=["gix_packetline::decode::hex_prefix"]),
+        H("control_lines", ["C29"], "full", "flush / delim / response-end"),
+    ] + [H("encode_max_%s" % nm, ["C29"], "bounded", "%s encoder at exactly the maximum payload length (65516 minus framing)" % nm) for nm in NAMES]
+      + [H("encode_empty_%s" % nm, ["C29"], "bounded", "%s encoder refuses the empty payload" % nm, tier="quick" if nm == "data" else "thorough", timeout=1500) for nm in NAMES]
+      + [H("encode_over_%s" % nm, ["C29"], "bounded", "%s encoder refuses a payload one byte above the maximum" % nm, tier="quick" if nm == "data" else "thorough", timeout=1500) for nm in NAMES]
+      + rt(1, "quick") + rt(2, "quick") + rt(4, "quick") + rt(6, "thorough") + rt(10, "thorough")
+      + [H("band_any_1", ["C29", "C06"], "bounded", "decode_band/as_text/check_error on every 1-byte data line"),
+         H("band_any_3", ["C29", "C06"], "bounded", "decode_band/as_text/check_error on every 3-byte data line")],
+}]
+ASSUMPTIONS = [
+    ("C29", "the Verus proof of streaming/all_at_once uses hex_prefix through its contract (1 <= Wanted <= 65531, Line is never Data); that contract is discharged by the Kani harness pktline.hex_prefix_all over all 2^32 prefixes"),
+    ("C29", "payload-length limits of the encoders are checked at the boundary lengths 0, max and max+1 only (a symbolic length makes two io::Error paths live at once, beyond CBMC)"),
+    ("C29", "reader chunk-independence and side-band demultiplexing (StreamingPeekableIter, WithSidebands: generic Read over a 65520-byte buffer with callbacks) are undecided"),
+    ("C29", "faster_hex scalar path is executed (cpuid stubbed to 'no SIMD'); SSE/AVX paths unverified"),
+]
